@@ -23,8 +23,9 @@ type env struct {
 	dir    string
 	st     *store.ImmuStore
 	eng    *sql.Engine
-	tx     *sql.SQLTx // open explicit transaction, if any
-	script []string   // every statement executed so far (the replay script)
+	tx     *sql.SQLTx             // open explicit transaction, if any
+	script []string               // every statement executed so far (the replay script)
+	params map[string]interface{} // named parameters of the case (shared with the schema)
 }
 
 func (e *env) open() error {
@@ -62,7 +63,7 @@ func (e *env) reopen() error {
 // exec runs one statement (inside the explicit transaction when one is open).
 func (e *env) exec(stmt string) error {
 	e.script = append(e.script, stmt+";")
-	ntx, _, err := e.eng.Exec(context.Background(), e.tx, stmt, nil)
+	ntx, _, err := e.eng.Exec(context.Background(), e.tx, stmt, e.params)
 	if e.tx != nil || ntx != nil {
 		e.tx = ntx // nil after COMMIT, and after an error (the engine cancels the transaction)
 	}
@@ -146,7 +147,7 @@ func encRow(r []val) string {
 func (e *env) run(q string) *result {
 	ctx := context.Background()
 	res := &result{SQL: q}
-	rd, err := e.eng.Query(ctx, e.tx, q, nil)
+	rd, err := e.eng.Query(ctx, e.tx, q, e.params)
 	if err != nil {
 		res.Err = err
 		return res
